@@ -40,8 +40,8 @@ pub fn io_access(m: &Machine) -> Option<(u16, bool)> {
 
 pub fn user_mode(m: &Machine) -> bool { m.sim.psr().get() & 0x8000 != 0 }
 pub fn reg_w(m: &Machine, r: u8) -> W { m.sim.reg_file[reg(r)].verif_parts() }
-pub fn kb_queue(m: &Machine) -> Vec<u8> { m.kb.as_ref().map(|b| b.read().unwrap().iter().copied().collect()).unwrap_or_default() }
-pub fn ds_buf(m: &Machine) -> Vec<u8> { m.ds.as_ref().map(|b| b.read().unwrap().clone()).unwrap_or_default() }
+pub fn kb_queue(m: &Machine) -> Vec<u8> { m.kb.as_ref().map(|b| b.read().unwrap_or_else(|e| e.into_inner()).iter().copied().collect()).unwrap_or_default() }
+pub fn ds_buf(m: &Machine) -> Vec<u8> { m.ds.as_ref().map(|b| b.read().unwrap_or_else(|e| e.into_inner()).clone()).unwrap_or_default() }
 
 /// Steps a machine under a lock schedule and accumulates the `sim.run` correspondence case.
 pub struct Runner {
